@@ -4,15 +4,17 @@ from ..common import d42  # noqa: F401
 from d42 import substitute, validate
 from d42.representation import Representor
 
-MODULE = "D42.Props.C16"
+MODULE = "D42.Props.C16Erase"
 THEOREMS = ["erase_validate", "erase_validateAll", "erase_validateElems", "erase_windows", "erase_validateFields",
-            "erase_anyOk", "custom_validate", "custom_represent", "custom_gen", "custom_subst_ok", "custom_pyEq"]
+            "erase_anyOk", "custom_validate", "custom_represent", "custom_gen", "custom_subst_ok", "custom_pyEq",
+            "erase_gen", "erase_represent", "erase_subst", "erase_idem", "erase_pyEq_self", "erase_pyEq", "erase_pyEq_of_pyEq",
+            "erase_pyEq_self_counterexample", "erase_fromNative"]
 FILES = ["D42/Model/Data.lean", "D42/Model/Validate.lean", "D42/Model/Gen.lean", "D42/Model/Repr.lean",
-         "D42/Model/Subst.lean", "D42/Props/C16.lean"]
+         "D42/Model/Subst.lean", "D42/Model/Eq.lean", "D42/Props/C15.lean", "D42/Props/C16.lean", "D42/Props/C16Erase.lean"]
 
 EVIDENCE = dict(
     level="proof",
-    checker_cmd="lake build D42.Props.C16 d42model && lake env lean <#print axioms audit>",
+    checker_cmd="lake build D42.Props.C16Erase d42model && lake env lean <#print axioms audit>",
     trusted=["Lean kernel; standard axioms", "the model evaluates `custom inner` by forwarding path/indent/draws to `inner` "
              "exactly as CustomSchema.__d42_*__ + a forwarding user hook do; tie = comparing the real wrapped tree against "
              "the real plain tree and against the model on errors, generated values, repr text and substitution outcome"],
@@ -161,7 +163,10 @@ MANIFEST = dict(
     technique="Lean 4 erasure theorems (custom node = its inner schema in every visitor) + plain-vs-wrapped differential run",
     text="Theorems: validating, generating from, printing and substituting into `custom inner` equals doing so with `inner` "
          "(same errors and paths, same draws and value, same tokens at every indent, same outcome), lifted to arbitrary sets "
-         "of wrapped positions by erase_validate (induction over the tree); tie and search: every generated tree is executed "
+         "of wrapped positions at any depth by erase_validate / erase_gen / erase_represent / erase_subst (mutual inductions over "
+         "the tree, Props/C16Erase.lean); `==` is preserved by erasure (erase_pyEq_of_pyEq) and equal for trees wrapped at the same "
+         "positions (erase_pyEq; erase_pyEq_self needs distinct dict keys — a Python dict guarantees them, counter-example "
+         "theorem for the model's duplicate-key tables); tie and search: every generated tree is executed "
          "on the real code both plain and with random sub-schemas wrapped in a real forwarding CustomSchema and compared.",
     note="Trusted: Lean kernel + standard axioms, hand model, codec. The forwarding class is the harness's (harness/custom.py); "
          "a custom type that does not forward its arguments is outside the property.")
